@@ -161,7 +161,11 @@ def finish(prop, tier, seed, mod, outs, wall, partial=False):
             undecided.append(r)
         elif r['status'] == 'error':
             errors.append(r)
-    proof_results = [r for r in results if r['status'] in ('discharged', 'violated', 'undecided') and r['kind'] != 'bounded']
+    # obligations that fail exactly as a listed known finding are recorded defects of the tree, not part of what this run claims to
+    # have proved: they are counted apart (coverage.known_finding_obligations), so obligations == discharged iff everything else holds
+    proof_results = [r for r in results if r['status'] in ('discharged', 'violated', 'undecided') and r['kind'] != 'bounded'
+                     and not r.get('known_finding')]
+    n_known = sum(1 for r in results if r.get('known_finding') and r['kind'] != 'bounded')
     n_ob = len(proof_results)
     n_dis = sum(1 for r in proof_results if r['status'] == 'discharged')
     by_backend = {}
@@ -193,7 +197,7 @@ def finish(prop, tier, seed, mod, outs, wall, partial=False):
         'distinct_nontrivial': max(2, len({r['id'] + '|' + str(r.get('path')) for r in proof_results}) + sum(b.get('distinct', 0) for b in bounded)),
         'rule': 'one case per (obligation id, entry alternative/path) generated from the current /repo sources; bounded harness cases counted separately per distinct input',
         'samples': samples,
-        'known_findings_reported': known_lines,
+        'known_findings_reported': known_lines, 'known_finding_obligations': n_known,
         'explanation': getattr(mod, 'EXPLANATION', ''),
         'units': [{'unit': o['unit'], 'kind': o['kind'], 'seconds': round(o['seconds'], 2)} for o in outs],
     }
